@@ -201,6 +201,33 @@ def program_level(res, harness, tier, rng):
                 meta.append(("callable", len(sib) + 1, False, ("type-alias", aname, first) + tuple(t for t, _ in sib)))
                 reqs.append({"files": {"main.ddp": head + decls + fn("zeige_zweit", second, "zweit") + calls}, "main": "main.ddp"})
                 meta.append(("duplicate", len(sib) + 1, False, ("type-alias", aname, first) + tuple(t for t, _ in sib)))
+    # the owner of an alias may be a function or a Kombination (its constructor): a duplicate is a duplicate whoever owns the first one
+    def owner(kind, name, pattern):
+        if kind == "func":
+            return ('Die Funktion %s mit den Parametern x und y vom Typ Zahl und Zahl, gibt eine Zahl zurück, macht:\n\tGib x plus y zurück.\nUnd kann so benutzt werden:\n\t"%s"\n\n' % (name, pattern))
+        return ('Wir nennen die öffentliche Kombination aus\n\tder öffentlichen Zahl x mit Standardwert 0,\n\tder öffentlichen Zahl y mit Standardwert 0,\neinen %s, und erstellen sie so:\n\t"%s"\n\n' % (name.capitalize(), pattern))
+    pattern = "ein Ding bei <x> und <y>"
+    for k1 in ("func", "struct"):
+        for k2 in ("func", "struct"):
+            o1, o2 = owner(k1, "erstes", pattern), owner(k2, "zweites", pattern)
+            if k1 == "func":
+                o1 = o1.replace("Die Funktion", "Die öffentliche Funktion")
+            head = 'Binde "Duden/Ausgabe" ein.\n'
+            # both in one file
+            reqs.append({"files": {"main.ddp": head + o1 + o2}, "main": "main.ddp"})
+            meta.append(("duplicate", 2, False, ("owners", k1, k2, "local")))
+            # the first one imported
+            reqs.append({"files": {"m1.ddp": head + o1, "main.ddp": head + 'Binde "m1" ein.\n' + o2}, "main": "main.ddp"})
+            meta.append(("duplicate", 2, False, ("owners", k1, k2, "first-imported")))
+            # both imported
+            o2p = o2.replace("Die Funktion", "Die öffentliche Funktion")
+            reqs.append({"files": {"m1.ddp": head + o1, "m2.ddp": head + o2p, "main.ddp": head + 'Binde "m1" ein.\nBinde "m2" ein.\n'}, "main": "main.ddp"})
+            meta.append(("duplicate", 2, False, ("owners", k1, k2, "both-imported")))
+        # alone it is callable, also with other aliases of both kinds around it
+        use = ("Die Zahl r ist ein Ding bei 1 und 2.\nSchreibe r.\n" if k1 == "func" else "Der Erstes r ist ein Ding bei 1 und 2.\nSchreibe (x von r).\n")
+        others = owner("func", "drittes", "ein Ding mit <x> und <y>") + owner("struct", "viertes", "ein Ding bei <x>, <y>")
+        reqs.append({"files": {"main.ddp": 'Binde "Duden/Ausgabe" ein.\n' + others + owner(k1, "erstes", pattern) + use}, "main": "main.ddp"})
+        meta.append(("callable", 3, False, ("owners", k1, "with-siblings")))
     outs = corr.parse_many(harness, reqs)
     ALIAS_DUP = (error_codes()["SEM_ALIAS_ALREADY_DEFINED"], error_codes()["SEM_ALIAS_ALREADY_TAKEN"])
     res.evaluations += len(reqs)
